@@ -73,12 +73,13 @@ func c06GetStat() *cache.Stat {
 type c06Conf struct {
 	nodes       []int // env servers used; len 1 = single node
 	viaClusterC bool  // single node built through cache.New(ClusterConf of one)
+	clusterType bool  // single node on a redis client of Type "cluster" (multi-key deletes go key by key)
 	exp, nfExp  time.Duration
 	nf          int
 }
 
 func (c c06Conf) String() string {
-	return fmt.Sprintf("nodes=%v viaConf=%v expiry=%v notFoundExpiry=%v", c.nodes, c.viaClusterC, c.exp, c.nfExp)
+	return fmt.Sprintf("nodes=%v viaConf=%v clusterType=%v expiry=%v notFoundExpiry=%v", c.nodes, c.viaClusterC, c.clusterType, c.exp, c.nfExp)
 }
 
 func c06DrawConf(t *rapid.T) c06Conf {
@@ -86,6 +87,7 @@ func c06DrawConf(t *rapid.T) c06Conf {
 	switch rapid.IntRange(0, 3).Draw(t, "topology") {
 	case 0:
 		c.nodes = []int{rapid.IntRange(0, kit.Nodes-1).Draw(t, "node")}
+		c.clusterType = rapid.Bool().Draw(t, "clusterType")
 	case 1:
 		c.nodes = []int{rapid.IntRange(0, kit.Nodes-1).Draw(t, "node")}
 		c.viaClusterC = true
@@ -114,7 +116,11 @@ func c06Build(env *kit.Env, c c06Conf, barrier syncx.SingleFlight) cache.Cache {
 		opts = append(opts, cache.WithNotFoundExpiry(c.nfExp))
 	}
 	if len(c.nodes) == 1 && !c.viaClusterC {
-		return cache.NewNode(env.Rds[c.nodes[0]], barrier, c06GetStat(), c06NotFnd[c.nf], opts...)
+		rds := env.Rds[c.nodes[0]]
+		if c.clusterType {
+			rds = env.RdsC[c.nodes[0]]
+		}
+		return cache.NewNode(rds, barrier, c06GetStat(), c06NotFnd[c.nf], opts...)
 	}
 	var conf cache.ClusterConf
 	for _, n := range c.nodes {
